@@ -36,6 +36,7 @@ structure Call where
   kind : Kind
   listener : Nat
   laddr : Nat
+  spell : Nat := 0                   -- how the request spells the code (0 = as generated)
 deriving DecidableEq, Repr
 
 def ORes.isOk : ORes → Bool
@@ -130,6 +131,6 @@ def obs (c : Config) : Obs :=
     maps := (c.st.maps.filter (fun m => !m.pre)).map Mapping.tup,
     orec := orecOf c.st }
 
-def callOf (t : Thread) : Call := ⟨t.kind, t.listener, t.laddr⟩
+def callOf (t : Thread) : Call := ⟨t.kind, t.listener, t.laddr, t.spell⟩
 
 end Tunnox.C06
